@@ -1,0 +1,19 @@
+//go:build verif
+// +build verif
+
+// Contracts for package tcpip, read only by the verifier in /verif (build tag verif).
+// This file contains no code.
+
+package tcpip
+
+// ASSUMED contracts of the Payload interface (from its documentation): Size is a
+// non-negative property of the payload that does not change between calls; Get(size)
+// returns at most size bytes when it succeeds.
+//@ func (Payload).Size props C11 C06
+//@   nobody
+//@   pure
+//@   ensures result >= 0
+
+//@ func (Payload).Get props C11 C06
+//@   nobody
+//@   ensures implies(result2 == nil, len(result1) <= imax(size, 0))
